@@ -186,4 +186,63 @@ Section Randomized.
     unfold cols_orthonormal_upto, orthonormal_cols, meq, mmul, mtrans, dot, mI. split; intros H a b Ha Hb;
       apply H; assumption.
   Qed.
+  (* ---------------- the loop WITH its threshold branch, as written ---------------- *)
+  (* ScalarType norm = Y.col(i).norm();
+     if (norm < 1e-4) { for (int k = i; k < Y.cols(); k++) Y.col(k).setZero(); }
+     Y.col(i) *= (1.f / norm);
+     `below` is the oracle for the comparison  norm < 1e-4  (a double comparison).  In the field
+     model 0 * (1/s) = 0; in binary64 a zero norm gives 0 * inf = NaN (known finding F36). *)
+  Definition gs_step_thr (below : F -> bool) (n : nat) (Y : mat F) (i : nat) (s : F) : mat F :=
+    let col := gs_subtract n Y i i (fun t => Y t i) in
+    if below s then
+      fun t c => if Nat.leb i c then (if Nat.eqb c i then 0 * (1 / s) else 0) else Y t c
+    else
+      fun t c => if Nat.eqb c i then col t * (1 / s) else Y t c.
+
+  Fixpoint gram_schmidt_thr (below : F -> bool) (n : nat) (Y : mat F) (k : nat) (s : nat -> F) : mat F :=
+    match k with
+    | O => Y
+    | S k' => gs_step_thr below n (gram_schmidt_thr below n Y k' s) k' (s k')
+    end.
+
+  (* as long as the branch is never taken the loop is the plain Gram-Schmidt above *)
+  Theorem gram_schmidt_thr_no_branch below n (Y : mat F) k (s : nat -> F) :
+    (forall i, i < k -> below (s i) = false) ->
+    forall t c, gram_schmidt_thr below n Y k s t c = gram_schmidt n Y k s t c.
+  Proof.
+    induction k as [|k IH]; intros H t c; [reflexivity|].
+    cbn [gram_schmidt_thr gram_schmidt]. unfold gs_step_thr, gs_step.
+    rewrite (H k (Nat.lt_succ_diag_r k)).
+    assert (E : forall t' c', gram_schmidt_thr below n Y k s t' c' = gram_schmidt n Y k s t' c')
+      by (intros; apply IH; intros; apply H; lia).
+    destruct (Nat.eqb c k); [|apply E].
+    f_equal.
+    (* gs_subtract depends on the matrix only through its entries *)
+    assert (G : forall (A B : mat F) j col, (forall t' c', A t' c' = B t' c') ->
+                forall u, gs_subtract n A k j col u = gs_subtract n B k j col u).
+    { intros A B j. induction j as [|j IHj]; intros col HAB u; [reflexivity|].
+      cbn [gs_subtract]. rewrite (IHj col HAB u). rewrite (HAB u j). f_equal. f_equal.
+      unfold dot. apply sumn_ext. intros v _. rewrite (IHj col HAB v), (HAB v j). reflexivity. }
+    rewrite (G _ _ k _ E t).
+    (* the starting column *)
+    assert (G2 : forall j (c1 c2 : vec F), (forall u, c1 u = c2 u) ->
+                 forall u, gs_subtract n (gram_schmidt n Y k s) k j c1 u =
+                           gs_subtract n (gram_schmidt n Y k s) k j c2 u).
+    { intros j. induction j as [|j IHj]; intros c1 c2 Hc u; [apply Hc|].
+      cbn [gs_subtract]. rewrite (IHj c1 c2 Hc u). f_equal. f_equal.
+      unfold dot. apply sumn_ext. intros v _. rewrite (IHj c1 c2 Hc v). reflexivity. }
+    apply G2. intros u. apply E.
+  Qed.
+
+  (* Y.householderQr().solve(B1): the least-squares solution, i.e. the normal equations
+     Y^T Y B = Y^T B1; with orthonormal Y it is Y^T B1 *)
+  Theorem ls_solution_orthonormal n k (Y B B1 : mat F) :
+    orthonormal_cols n k Y ->
+    meq k k (mmul k (mmul n (mtrans Y) Y) B) (mmul n (mtrans Y) B1) ->
+    meq k k B (mmul n (mtrans Y) B1).
+  Proof.
+    intros HY H a b Ha Hb. rewrite <- (H a b Ha Hb).
+    rewrite (mmul_meq k k k (mmul n (mtrans Y) Y) mI B B HY (meq_refl _ _ _) a b Ha Hb).
+    symmetry. apply mmul_I_l. assumption.
+  Qed.
 End Randomized.
